@@ -18,7 +18,16 @@ import (
 
 // C06: each mutation root field reaches its owning service exactly once.
 
-func init() { Registry["C06"] = scenMUT }
+func init() {
+	Registry["C06"] = func(s *sched.Sim, cfg Config, res *Result) {
+		// one run in eight: mutations that carry files, with a fault on the multipart call
+		if s.T.Choose(8) == 0 {
+			scenUPL(s, cfg, res)
+			return
+		}
+		scenMUT(s, cfg, res)
+	}
+}
 
 // rootFieldsOf lists the root fields (name, response key) of the operation in a wire text.
 func rootFieldsOf(schema *ast.Schema, text string, opName *string) (kind string, names []string) {
